@@ -612,12 +612,20 @@ func (s *Sched) prepareOp(t *Thread, op *Op) {
 			}
 		}
 		if !op.hasDef {
-			for i := range op.cases {
+			for i, c := range op.cases {
 				if op.isSendCase(i) {
 					// validated only for the non-blocking form (try-send on a buffered channel);
 					// the reduced explorer disagreed with plain enumeration on a blocking select
-					// that mixes send and receive cases, so the engine refuses it
-					s.abort("unsupported: blocking select with a send case")
+					// that mixes send and receive cases, so the REDUCED explorer refuses it (the
+					// caller falls back to the unreduced, delay-bounded enumeration, whose
+					// verdicts do not rest on the dependency table), in the pure buffer model
+					if Reduced {
+						s.abort("unsupported: blocking select with a send case")
+					}
+					if !PureBuf && c != nil && !isNilChan(c) && c.Cap() > 0 {
+						NeedPure = true
+						s.abort("restart:pure-buffer-model")
+					}
 				}
 			}
 		}
